@@ -115,6 +115,9 @@ class SimRaw(io.RawIOBase):
             if self._alive():
                 self.fs.raw_close(self)
         finally:
+            fd = getattr(self, "_fd", None)
+            if fd is not None and self.fs.fds.get(fd) is self:
+                del self.fs.fds[fd]
             super().close()
 
 
@@ -364,10 +367,45 @@ class SimFS:
         raw = self.open(p, m + "b", buffering=0)
         if "x" in m:
             raw._writable = True
+        if flags & os.O_APPEND:
+            raw._pos = 0  # O_APPEND moves the offset at each write, not at open()
         fd = self.next_fd
         self.next_fd += 1
         self.fds[fd] = raw
+        raw._fd = fd
         return fd
+
+    def open_fd(self, fd, mode="r", buffering=-1, encoding=None, errors=None, newline=None, closefd=True, opener=None):
+        """open(fd, mode) / os.fdopen(fd, mode) on a simulated descriptor: a new buffered
+        object over the descriptor's raw file.  As with a real descriptor nothing is
+        truncated, "a" seeks to the end at once, other modes leave the offset alone."""
+        raw = self.fd_raw(fd)
+        m = mode.replace("t", "")
+        binary = "b" in m
+        core = m.replace("b", "")
+        if any(c in core for c in "wax+") and not raw._writable:
+            raise OSError(errno.EBADF, "Bad file descriptor")
+        if "a" in core:
+            raw._pos = len(self.files.get(raw.path, b""))
+        if not closefd:
+            raise HarnessUnsupported("open(fd, closefd=False) on a simulated descriptor")
+        self.fds.pop(fd, None)  # the file object owns the descriptor now
+        raw._fd = fd
+        self.fds[fd] = raw
+        if buffering == 0:
+            if not binary:
+                raise ValueError("can't have unbuffered text I/O")
+            return raw
+        bs = self.buffer_size if buffering in (-1, 1) else buffering
+        if "+" in core:
+            buf = io.BufferedRandom(raw, bs)
+        elif any(c in core for c in "wax"):
+            buf = io.BufferedWriter(raw, bs)
+        else:
+            buf = io.BufferedReader(raw, bs)
+        if binary:
+            return buf
+        return io.TextIOWrapper(buf, encoding or "utf-8", errors, newline, line_buffering=(buffering == 1))
 
     def fd_raw(self, fd):
         raw = self.fds.get(fd)
@@ -513,11 +551,15 @@ def _install_dispatchers():
 
     def open_disp(file, *a, **k):
         fs = _MOUNTED
-        if fs is not None and fs.under(file):
+        if fs is not None and isinstance(file, int) and not isinstance(file, bool) and file in fs.fds:
+            return fs.open_fd(file, *a, **k)
+        if fs is not None and not isinstance(file, int) and fs.under(file):
             return fs.open(file, *a, **k)
         return real_open(file, *a, **k)
 
     builtins.open = open_disp
+    _REAL["io.open"] = io.open
+    io.open = open_disp  # os.fdopen() and pathlib go through io.open
     io.open = open_disp
 
 
